@@ -258,13 +258,15 @@ namespace pika::when_all_vector_detail {
                 {
 #if defined(PIKA_HAVE_STDEXEC)
                     if constexpr (pika::execution::experimental::sends_stopped<Sender>)
-#else
-                    if constexpr (pika::execution::experimental::sender_traits<Sender>::sends_done)
-#endif
                     {
                         pika::execution::experimental::set_stopped(std::move(receiver));
                     }
                     else { PIKA_UNREACHABLE; }
+#else
+                    // sends_done is hard-coded to false by the adaptors and any_sender even
+                    // though they forward set_stopped, so it cannot be relied on here
+                    pika::execution::experimental::set_stopped(std::move(receiver));
+#endif
                 }
             }
         }
